@@ -11,7 +11,7 @@
    by SOME history; convert stands for convertToLogicalLines, is_mk for the
    ".mk" suffix test; both are arbitrary. *)
 From PV Require Import Lib.Bytes Model.FileCache Spec.FreshLoad
-  Proofs.FileCacheWf Proofs.FileCacheInv Proofs.FileCache Proofs.FileCacheSim.
+  Proofs.FileCacheWf Proofs.FileCacheInv Proofs.FileCache Proofs.FileCacheSim Proofs.FileCachePrivate.
 From Coq Require Import Permutation.
 Open Scope N_scope.
 
@@ -163,6 +163,27 @@ Theorem C20_fresh_lines_per_load :
     (forall w, (w < length (st_views s))%nat -> view_lines s' w = view_lines s w).
 Proof. exact fresh_lines_per_load. Qed.
 Print Assumptions C20_fresh_lines_per_load.
+
+(* FileCache.Get hands out lines that stay PRIVATE to the caller.  A Load that is
+   served by Get (the file is cached with these options) returns a view none of
+   whose Line objects is reachable from the cache (addr_cached: some table entry
+   holds the address) -- then and after EVERY continuation of the run (further
+   loads, overflow, fixes through any view, successful and failing saves,
+   modifications) -- and no other view holds any of them.  So whatever is done to
+   these Line objects (Autofix changes of Text, Line.once marks) cannot change
+   what a later Get copies from, in any mode.  (The view of a cache MISS is what
+   Put stores; that aliasing is C20_load_transparent_refuted.) *)
+Theorem C20_get_lines_fresh :
+  forall convert is_mk md cap disk s fn o eid s1 v, (1 <= cap)%nat -> reach convert is_mk md cap disk s ->
+  map_get (key fn) (c_map (st_cache s)) = Some eid ->
+  e_opts (entry_at (c_store (st_cache s)) eid) = o ->
+  load convert is_mk s fn o = Ok (s1, Some v) ->
+  forall h s2 obs w, run convert is_mk md s1 h = (s2, obs, w) ->
+  exists addrs, nth_error (st_views s2) v = Some (fn, addrs) /\
+    (forall a, In a addrs -> ~ addr_cached s2 a) /\
+    (forall u fu au a, u <> v -> nth_error (st_views s2) u = Some (fu, au) -> In a au -> ~ In a addrs).
+Proof. exact get_lines_private. Qed.
+Print Assumptions C20_get_lines_fresh.
 
 (* a fix through one view changes no Line of any other view (the cache entry of the
    first view is NOT another view: that aliasing is what the guard is about) *)
